@@ -21,8 +21,10 @@ class ConnPoolSpec(Spec):
         self.property_id = pid
         if pid == 'C15':
             self.strata = {
-                'quick': [('core', 5), ('nofault', 2), ('disc_fail', 1), ('cancel', 1), ('prune_all', 1), ('prune_busy', 1)],
-                'thorough': [('core', 5), ('nofault', 2), ('disc_fail', 1), ('cancel', 1), ('prune_all', 1), ('prune_busy', 1)],
+                'quick': [('core', 5), ('nofault', 2), ('disc_fail', 1), ('cancel', 1), ('prune_all', 1), ('prune_busy', 1),
+                          ('tight', 2), ('tight_nofault', 1)],
+                'thorough': [('core', 40), ('nofault', 16), ('disc_fail', 8), ('cancel', 8), ('prune_all', 8), ('prune_busy', 8),
+                             ('tight', 16), ('tight_nofault', 8), ('big', 1)],
             }
             self.runs = {'quick': 200000, 'thorough': 4000000}
             self.rule = ('one run = one seeded world (1-10 databases, capacity 1-8, 1-40 clients, drawn latencies, '
@@ -32,8 +34,10 @@ class ConnPoolSpec(Spec):
                          'disconnect/fail/prune/stall with client and database index) among non-trivial runs')
         else:
             self.strata = {
-                'quick': [('core', 6), ('nofault', 3), ('disc_fail', 1), ('cancel', 1), ('prune_busy', 1)],
-                'thorough': [('core', 6), ('nofault', 3), ('disc_fail', 1), ('cancel', 1), ('prune_busy', 1)],
+                'quick': [('core', 6), ('nofault', 3), ('disc_fail', 1), ('cancel', 1), ('prune_busy', 1),
+                          ('tight', 3), ('tight_nofault', 2)],
+                'thorough': [('core', 48), ('nofault', 24), ('disc_fail', 8), ('cancel', 8), ('prune_busy', 8),
+                             ('tight', 24), ('tight_nofault', 16), ('big', 1)],
             }
             self.runs = {'quick': 200000, 'thorough': 4000000}
             self.rule = ('same world as C15; oracle = every acquire() resolves: violation iff an acquire is pending while the '
@@ -48,7 +52,11 @@ class ConnPoolSpec(Spec):
 
     def run_world(self, tape, stratum, mutant=None, record=False, **kw):
         live = self.property_id == 'C16'
-        return connpool.run(tape, stratum=stratum, mutant=mutant, record=record, liveness=live)
+        big = stratum == 'big'      # up to 200 clients; faults as in 'core'
+        tight = stratum.startswith('tight')
+        base = {'big': 'core', 'tight': 'core', 'tight_nofault': 'nofault'}.get(stratum, stratum)
+        return connpool.run(tape, stratum=base, mutant=mutant, record=record,
+                            liveness=live, big=big, tight=tight)
 
 
 SPECS = {'C15': ConnPoolSpec('C15'), 'C16': ConnPoolSpec('C16')}
